@@ -20,7 +20,7 @@ inductive PayloadReply where
   | crash
 
 /-- one attempt of `buildAndSendPayload`'s retry closure on a reply -/
-def payloadReply (minRsp : Nat) (d : GoSlice) : PayloadReply :=
+def payloadReply (d : GoSlice) : PayloadReply :=
   match RMCP.decodeGo {} d with
   | .err => .retry
   | .panic | .overread => .crash
@@ -35,19 +35,19 @@ def payloadReply (minRsp : Nat) (d : GoSlice) : PayloadReply :=
       if v.payload.isEmpty then .got (GoSlice.window [] (List.replicate 64 0xEE)) else
       if v.payloadType == 0 && !v.encrypted then
         -- IPMI payload: the message layer is tried next; whatever happens the innermost is not the wrapper
-        match Message.decodeGo minRsp {} (GoSlice.ofBytes v.payload) with
+        match Message.decodeGo 8 {} (GoSlice.ofBytes v.payload) with
         | .panic | .overread => .crash
         | _ => .retry
       else .got (GoSlice.window v.payload (List.replicate 64 0xEE))   -- LayerPayload() is a window into the 512-byte receive buffer
 
 /-- `buildAndSendPayload`: transmit the same datagram until a reply decodes down to the session wrapper;
     returns (number of transmissions, payload) -/
-def exchange (minRsp : Nat) : List Outcome → Nat × Option PayloadReply
+def exchange : List Outcome → Nat × Option PayloadReply
   | [] => (0, none)       -- the harness cancels the context on the attempt it records last
-  | .lost :: rest => let (n, r) := exchange minRsp rest; (n + 1, r)
+  | .lost :: rest => let (n, r) := exchange rest; (n + 1, r)
   | .reply d :: rest =>
-    match payloadReply minRsp (GoSlice.ofBytes d) with
-    | .retry => let (n, r) := exchange minRsp rest; (n + 1, r)
+    match payloadReply (GoSlice.ofBytes d) with
+    | .retry => let (n, r) := exchange rest; (n + 1, r)
     | x => (1, some x)
 
 structure Opts where
@@ -70,83 +70,101 @@ inductive HsRes where
 
 def roleByte (o : Opts) : UInt8 := o.priv ||| (if o.lookup then 0 else 0x10)
 
-/-- `newV2Session`. `rm` = the 16-byte draw from crypto/rand; `script` = per-attempt outcomes of the three
-    exchanges in order (a list per exchange is not needed: each exchange consumes what it uses).
-    `guard40` selects the repaired RAKP 2 decoder; `noDowngrade` the repaired algorithm check. -/
-def newSession (C : Ops) (minRsp : Nat) (guard40 noDowngrade : Bool) (o : Opts) (rm : Bytes)
-    (script : List Outcome) : List Bytes × HsRes :=
-  -- Open Session
+/-- what an exchange ended with, as far as `newV2Session` is concerned -/
+def exchangePayload (script : List Outcome) : Except HsRes GoSlice :=
+  match (exchange script).2 with
+  | none => .error .error
+  | some .crash => .error .crashed
+  | some .retry => .error .error
+  | some (.got p) => .ok p
+
+/-- `openSession` + the comparison of the confirmed algorithms with the proposal -/
+def stepOpen (o : Opts) (script : List Outcome) : Except HsRes OpenSessionRsp :=
+  match exchangePayload script with
+  | .error e => .error e
+  | .ok p1 =>
+    match OpenSessionRsp.decodeGo {} p1 with
+    | .panic | .overread => .error .crashed
+    | .err => .error .error
+    | .ok osr =>
+      if osr.tag != 0 then .error .error else
+      if osr.status != 0 then .error .error else
+      if osr.auth != o.auth || osr.integ != o.integ || osr.conf != o.conf then .error .error else
+      .ok osr
+
+def rakp2Code (C : Ops) (h : HashAlg) (o : Opts) (rm : Bytes) (osr : OpenSessionRsp) (rk2 : RAKP2) : Bytes :=
+  C.hmac h o.pass (putLE32 rk2.consoleSessionID ++ putLE32 osr.bmcSessionID ++ rm ++ rk2.bmcRandom
+    ++ rk2.bmcGUID ++ [roleByte o, UInt8.ofNat (o.user.length % 256)] ++ o.user)
+
+def rakp3Code (C : Ops) (h : HashAlg) (o : Opts) (rk2 : RAKP2) : Bytes :=
+  C.hmac h o.pass (rk2.bmcRandom ++ putLE32 rk2.consoleSessionID ++ [roleByte o, UInt8.ofNat (o.user.length % 256)] ++ o.user)
+
+def sikOf (C : Ops) (h : HashAlg) (o : Opts) (rm : Bytes) (rk2 : RAKP2) : Bytes :=
+  C.hmac h (if o.kg.isEmpty then o.pass else o.kg) (rm ++ rk2.bmcRandom ++ [roleByte o, UInt8.ofNat (o.user.length % 256)] ++ o.user)
+
+def icvOf (C : Ops) (h : HashAlg) (auth : UInt8) (sik rm : Bytes) (osr : OpenSessionRsp) (rk2 : RAKP2) : Bytes :=
+  let full := C.hmac h sik (rm ++ putLE32 osr.bmcSessionID ++ rk2.bmcGUID)
+  if icvLen auth == 0 then full else full.take (icvLen auth)
+
+/-- `rakpMessage1` + the RAKP 2 AuthCode check -/
+def stepRakp2 (C : Ops) (o : Opts) (rm : Bytes) (osr : OpenSessionRsp) (script2 : List Outcome) : Except HsRes (RAKP2 × HashAlg) :=
+  match exchangePayload script2 with
+  | .error e => .error e
+  | .ok p2 =>
+    match RAKP2.decodeGo true {} p2 with
+    | .panic | .overread => .error .crashed
+    | .err => .error .error
+    | .ok rk2 =>
+      if rk2.tag != 0 then .error .error else
+      if rk2.status != 0 then .error .error else
+      match authHash osr.auth with
+      | none => .error .error
+      | some h =>
+        if rk2.authCode != rakp2Code C h o rm osr rk2 then .error .incorrectPassword else .ok (rk2, h)
+
+/-- `rakpMessage3` + the RAKP 4 ICV check + the algorithm constructors -/
+def stepRakp4 (C : Ops) (o : Opts) (rm : Bytes) (osr : OpenSessionRsp) (rk2 : RAKP2) (h : HashAlg) (script3 : List Outcome) :
+    Except HsRes HsRes :=
+  match exchangePayload script3 with
+  | .error e => .error e
+  | .ok p3 =>
+    match RAKP4.decodeGo {} p3 with
+    | .panic | .overread => .error .crashed
+    | .err => .error .error
+    | .ok rk4 =>
+      if rk4.tag != 0 then .error .error else
+      if rk4.status != 0 then .error .error else
+      let sik := sikOf C h o rm rk2
+      if rk4.icv != icvOf C h osr.auth sik rm osr rk2 then .error .error else
+      -- algorithmHasher / algorithmCipher: suites without integrity or confidentiality, and unknown algorithms, are refused
+      if !(osr.integ == 1 || osr.integ == 2 || osr.integ == 4) then .error .error else
+      if osr.conf != 1 then .error .error else
+      .ok (.ok osr.consoleSessionID osr.bmcSessionID osr.auth osr.integ osr.conf sik
+            (C.hmac h sik (List.replicate 20 1)) (C.hmac h sik (List.replicate 20 2)))
+
+/-- `newV2Session` for a single acceptable cipher suite. `rm` = the 16-byte draw from crypto/rand; `script` = the
+    per-attempt outcomes of the three exchanges in order (each exchange consumes what it uses). -/
+def newSession (C : Ops) (o : Opts) (rm : Bytes) (script : List Outcome) : List Bytes × HsRes :=
   let d1 := setupDatagram 0x10 (OpenSessionReq.encode 0 o.priv 1 o.auth o.integ o.conf)
-  let (n1, r1) := exchange minRsp script
+  let n1 := (exchange script).1
   let sent1 := List.replicate n1 d1
-  match r1 with
-  | none => (sent1, .error)
-  | some .crash => (sent1, .crashed)
-  | some .retry => (sent1, .error)
-  | some (.got p1) =>
-  match OpenSessionRsp.decodeGo {} p1 with
-  | .panic | .overread => (sent1, .crashed)
-  | .err => (sent1, .error)
+  match stepOpen o script with
+  | .error e => (sent1, e)
   | .ok osr =>
-  if osr.tag != 0 then (sent1, .error) else
-  if osr.status != 0 then (sent1, .error) else
-  -- RAKP 1 / 2
   match RAKP1.encode 0 osr.bmcSessionID rm o.lookup o.priv o.user with
   | .error _ => (sent1, .error)
   | .ok rk1 =>
-  let d2 := setupDatagram 0x12 rk1
   let script2 := script.drop n1
-  let (n2, r2) := exchange minRsp script2
-  let sent2 := sent1 ++ List.replicate n2 d2
-  match r2 with
-  | none => (sent2, .error)
-  | some .crash => (sent2, .crashed)
-  | some .retry => (sent2, .error)
-  | some (.got p2) =>
-  match RAKP2.decodeGo guard40 {} p2 with
-  | .overread => (sent2, .incorrectPassword)   -- pinned tree: stale buffer bytes become random/GUID, AuthCode is empty
-  | .panic => (sent2, .crashed)
-  | .err => (sent2, .error)
-  | .ok rk2 =>
-  if rk2.tag != 0 then (sent2, .error) else
-  if rk2.status != 0 then (sent2, .error) else
-  match authHash osr.auth with
-  | none => (sent2, .error)
-  | some h =>
-  let role := roleByte o
-  let ulen := UInt8.ofNat (o.user.length % 256)
-  let code2 := C.hmac h o.pass (putLE32 rk2.consoleSessionID ++ putLE32 osr.bmcSessionID ++ rm ++ rk2.bmcRandom
-                ++ rk2.bmcGUID ++ [role, ulen] ++ o.user)
-  if rk2.authCode != code2 then (sent2, .incorrectPassword) else
-  -- RAKP 3 / 4
-  let code3 := C.hmac h o.pass (rk2.bmcRandom ++ putLE32 rk2.consoleSessionID ++ [role, ulen] ++ o.user)
-  let d3 := setupDatagram 0x14 (RAKP3.encode 0 osr.bmcSessionID code3)
+  let n2 := (exchange script2).1
+  let sent2 := sent1 ++ List.replicate n2 (setupDatagram 0x12 rk1)
+  match stepRakp2 C o rm osr script2 with
+  | .error e => (sent2, e)
+  | .ok (rk2, h) =>
   let script3 := script2.drop n2
-  let (n3, r3) := exchange minRsp script3
-  let sent3 := sent2 ++ List.replicate n3 d3
-  match r3 with
-  | none => (sent3, .error)
-  | some .crash => (sent3, .crashed)
-  | some .retry => (sent3, .error)
-  | some (.got p3) =>
-  match RAKP4.decodeGo {} p3 with
-  | .panic | .overread => (sent3, .crashed)
-  | .err => (sent3, .error)
-  | .ok rk4 =>
-  if rk4.tag != 0 then (sent3, .error) else
-  if rk4.status != 0 then (sent3, .error) else
-  let kg := if o.kg.isEmpty then o.pass else o.kg
-  let sik := C.hmac h kg (rm ++ rk2.bmcRandom ++ [role, ulen] ++ o.user)
-  let icvFull := C.hmac h sik (rm ++ putLE32 osr.bmcSessionID ++ rk2.bmcGUID)
-  let icv := if icvLen osr.auth == 0 then icvFull else icvFull.take (icvLen osr.auth)
-  if rk4.icv != icv then (sent3, .error) else
-  if noDowngrade && (osr.auth != o.auth || osr.integ != o.integ || osr.conf != o.conf) then (sent3, .error) else
-  let k1 := C.hmac h sik (List.replicate 20 1)
-  let k2 := C.hmac h sik (List.replicate 20 2)
-  -- algorithmHasher / algorithmCipher
-  if !(osr.integ == 0 || osr.integ == 1 || osr.integ == 2 || osr.integ == 4) then (sent3, .error) else
-  if osr.conf == 0 then (sent3, if noDowngrade then .error else .crashed)   -- pinned: nil cipher layer dereferenced
-  else if osr.conf != 1 then (sent3, .error) else
-  (sent3, .ok osr.consoleSessionID osr.bmcSessionID osr.auth osr.integ osr.conf sik k1 k2)
+  let n3 := (exchange script3).1
+  let sent3 := sent2 ++ List.replicate n3 (setupDatagram 0x14 (RAKP3.encode 0 osr.bmcSessionID (rakp3Code C h o rk2)))
+  match stepRakp4 C o rm osr rk2 h script3 with
+  | .error e => (sent3, e)
+  | .ok r => (sent3, r)
 
 end Bmc.Proto
